@@ -7,7 +7,8 @@
    exception: IndexError, struct.error, AssertionError, ValueError, UnicodeError; exhausted
    fuel = non-termination); for parser computations Val | Exn (XLib e) | Exn (XInt e). *)
 From DV Require Import Base.Prelude Model.NameM Model.ParserM Model.UntrustedM.
-From DV Require Model.TokM Model.SchemaM Model.SchemaHand Proofs.UntrustedSchema Proofs.UntrustedHand Model.ZoneTextM Proofs.UntrustedZone.
+From DV Require Model.TokM Model.SchemaM Model.SchemaHand Proofs.UntrustedSchema Proofs.UntrustedHand Model.ZoneTextM Proofs.UntrustedZone
+                Model.RdTextM Model.UntrustedTextM Proofs.UntrustedMsgText Proofs.UntrustedMsgTerm.
 From DV Require Import Proofs.NameValid Proofs.ParserSafe Proofs.ParserProg
                        Proofs.UntrustedSafe Proofs.UntrustedDec Proofs.UntrustedText.
 Open Scope Z_scope.
@@ -350,6 +351,62 @@ Theorem no_internal_read_rrsets : forall (c : ZoneTextM.cfg) (zo : name) (text :
 Proof. exact UntrustedZone.read_rrsets_outcome. Qed.
 Print Assumptions no_internal_read_rrsets.
 
+(* ================= message text (dns.message.from_text) ================= *)
+
+(* Model/UntrustedTextM.v: _TextReader.read with its header / question / RR line methods, section
+   switching by comment lines, the flags loops, TTL and class columns, _parse_rr_header, the per-type
+   text parser under ExceptionWrapper(SyntaxError).
+   For ANY per-type text parser that obeys the tokenizer discipline (it never leaves more input than
+   it found, except for one put-back token) - whatever it returns or raises - and any type-mnemonic
+   function whose only library error is UnknownRdatatype, on EVERY character string: a message or one
+   of the documented library errors; never ValueError / AssertionError / ..., and the `while 1`
+   loops end (no fuel exhaustion). *)
+Theorem no_internal_message_text :
+  forall (per_type_text : Z -> Z -> TokM.tstate -> res (unit * TokM.tstate)) (pctx : RdTextM.pctx)
+         (type_from_text : list Z -> res Z),
+  (forall v e, type_from_text v = Lib e -> e = UntrustedTextM.eUnknownRdatatype) ->
+  (forall c t st, UntrustedMsgTerm.Le st (per_type_text c t st)) ->
+  forall (text : list Z) (one_rr_per_rrset : bool),
+  match UntrustedTextM.from_text per_type_text pctx type_from_text text one_rr_per_rrset with
+  | Ok _ => True
+  | Lib e => UntrustedMsgText.mt_lib e
+  | Internal _ => False
+  end.
+Proof. exact UntrustedMsgTerm.message_from_text_total. Qed.
+Print Assumptions no_internal_message_text.
+
+(* without the discipline hypothesis: the only Internal outcome is exhausted fuel *)
+Theorem message_text_outcome :
+  forall (per_type_text : Z -> Z -> TokM.tstate -> res (unit * TokM.tstate)) (pctx : RdTextM.pctx)
+         (type_from_text : list Z -> res Z),
+  (forall v e, type_from_text v = Lib e -> e = UntrustedTextM.eUnknownRdatatype) ->
+  forall (text : list Z) (one_rr_per_rrset : bool),
+  match UntrustedTextM.from_text per_type_text pctx type_from_text text one_rr_per_rrset with
+  | Ok _ => True
+  | Lib e => UntrustedMsgText.mt_lib e
+  | Internal e => e = UntrustedTextM.iFuelT
+  end.
+Proof. exact UntrustedMsgText.message_from_text_outcome. Qed.
+Print Assumptions message_text_outcome.
+
+(* the instance the correspondence runs: C05's text schemas (Model/RdTextM.v) per type and the
+   rdatatype mnemonic table; both hypotheses are discharged *)
+Theorem no_internal_message_text_instance : forall (pctx : RdTextM.pctx) (text : list Z) (one_rr_per_rrset : bool),
+  match UntrustedTextM.from_text (UntrustedTextM.per_type_run pctx) pctx UntrustedTextM.type_from_text_run
+                                 text one_rr_per_rrset with
+  | Ok _ => True
+  | Lib e => UntrustedMsgText.mt_lib e
+  | Internal _ => False
+  end.
+Proof. exact UntrustedMsgTerm.message_from_text_run_total. Qed.
+Print Assumptions no_internal_message_text_instance.
+
+(* the tokenizer discipline of every text schema of C05's table *)
+Theorem text_schema_discipline : forall (pctx : RdTextM.pctx) (rdclass rdtype : Z) (st : TokM.tstate),
+  UntrustedMsgTerm.Le st (UntrustedTextM.per_type_run pctx rdclass rdtype st).
+Proof. exact UntrustedMsgTerm.per_type_run_le. Qed.
+Print Assumptions text_schema_discipline.
+
 (* ================= non-vacuity ================= *)
 
 (* a message whose A record is one octet short: in continue_on_error mode the failure (FormError,
@@ -382,3 +439,24 @@ Proof. vm_compute. reflexivity. Qed.
 
 Example ex_ops_ok : ops_ok [OU16; ORestrict 4 [OBytes 2; OU16]; OName None; ORemaining].
 Proof. cbn. repeat split; lia. Qed.
+
+(* message text: a question and an answer are read; an unknown header word and an out-of-range
+   TYPE mnemonic (ValueError before fix 763e120) are library errors *)
+Definition ex_pctx := RdTextM.mkPctx None false None.
+Definition ex_msgtext (text : list Z) :=
+  UntrustedTextM.from_text (UntrustedTextM.per_type_run ex_pctx) ex_pctx UntrustedTextM.type_from_text_run text false.
+
+Example ex_msgtext_ok :
+  match ex_msgtext [105; 100; 32; 49; 10; 59; 81; 85; 69; 83; 84; 73; 79; 78; 10; 101; 120; 97; 109; 112; 108; 101; 46; 32; 73; 78; 32; 65; 10; 59; 65; 78; 83; 87; 69; 82; 10; 101; 120; 97; 109; 112; 108; 101; 46; 32; 51; 48; 48; 32; 73; 78; 32; 65; 32; 49; 48; 46; 48; 46; 48; 46; 49; 10] with
+  | Ok m => length (UntrustedTextM.tm_q m) = 1%nat /\ map UntrustedTextM.r_ttl (UntrustedTextM.tm_rrs m) = [300]
+  | _ => False
+  end.
+Proof. vm_compute. split; reflexivity. Qed.
+
+Example ex_msgtext_unknown_header :
+  ex_msgtext [98; 111; 103; 117; 115; 32; 49; 10] = Lib UntrustedTextM.eUnknownHeaderField.
+Proof. vm_compute. reflexivity. Qed.
+
+Example ex_msgtext_type65536 :
+  ex_msgtext [105; 100; 32; 49; 10; 59; 65; 78; 83; 87; 69; 82; 10; 101; 120; 97; 109; 112; 108; 101; 46; 32; 51; 48; 48; 32; 73; 78; 32; 84; 89; 80; 69; 54; 53; 53; 51; 54; 32; 92; 35; 32; 48; 10] = Lib TokM.eSyntax.
+Proof. vm_compute. reflexivity. Qed.
